@@ -432,7 +432,12 @@ impl WorkStealingExecutor {
                     let start_time = Instant::now();
                     stats.active_tasks.fetch_add(1, Ordering::Relaxed);
 
-                    let _ = task.execute().await;
+                    // A panicking task must not take its worker down with it: the tasks queued behind it
+                    // (the rest of the local queue, non-stealable ones in particular) would never run.
+                    let _ = futures::FutureExt::catch_unwind(std::panic::AssertUnwindSafe(async move {
+                        task.execute().await
+                    }))
+                    .await;
 
                     let execution_time = start_time.elapsed().as_micros() as usize;
                     stats
